@@ -297,6 +297,27 @@ fn output_result_xml<T: serde::Serialize>(result: T) -> Result<()> {
     // Write the XML 1.1 declaration
     writer.write_event(Event::Decl(BytesDecl::new("1.1", Some("utf-8"), None)))?;
 
+    // Escape markup characters and the characters XML 1.1 only allows as character references.
+    fn escape_xml(text: &str) -> String {
+        let mut escaped = String::with_capacity(text.len());
+        for c in text.chars() {
+            match c {
+                '<' => escaped.push_str("&lt;"),
+                '>' => escaped.push_str("&gt;"),
+                '&' => escaped.push_str("&amp;"),
+                '\'' => escaped.push_str("&apos;"),
+                '"' => escaped.push_str("&quot;"),
+                '\u{1}' ..= '\u{8}' | '\u{b}' | '\u{c}' | '\u{e}' ..= '\u{1f}' | '\u{7f}' ..= '\u{84}' | '\u{86}' ..= '\u{9f}' => {
+                    escaped.push_str(&format!("&#x{:X};", c as u32))
+                }
+                // not representable at all
+                '\u{0}' | '\u{fffe}' | '\u{ffff}' => escaped.push('\u{fffd}'),
+                _ => escaped.push(c),
+            }
+        }
+        escaped
+    }
+
     // Define a recursive function `json_to_xml` to convert the JSON value into XML
     // format. The function takes a mutable reference to the XML writer, an
     // optional key as a string slice, and a reference to the JSON value to be
@@ -353,8 +374,9 @@ fn output_result_xml<T: serde::Serialize>(result: T) -> Result<()> {
                     _ => value.to_string().trim_matches('"').to_string(),
                 };
 
-                // Create a text node with the converted string value.
-                writer.write_event(Event::Text(BytesText::new(&text_string)))?;
+                // Create a text node with the converted string value (control characters must be
+                // written as character references to keep the document well-formed).
+                writer.write_event(Event::Text(BytesText::from_escaped(escape_xml(&text_string))))?;
 
                 if let Some(key) = key {
                     // Close the XML element.
